@@ -52,7 +52,7 @@ Print Assumptions C15_docs_url_shape.
    LifetimeEnv::num_lifetimes: LifetimeEnv::fmt_lifetime cannot reach its "Found out of range lifetime" panic on a
    lifetime of the method's own signature, however lifetimes are written, elided or hidden (Lifetimes/Elision.v) *)
 From Coq Require Import Arith.
-From DV Require Import Lifetimes.Model Lifetimes.Elision Lifetimes.ElisionProofs.
+From DV Require Import gen.Tables Lifetimes.Model Lifetimes.Elision Lifetimes.ElisionProofs.
 Theorem C15_lowered_lifetimes_in_range : forall g m k,
   ssig_ok g -> lower_sig g = Some (m, k) ->
   s_n g <= k /\ Forall (below k) (flat_map ty_lts (m_params m ++ m_ret m)).
